@@ -331,8 +331,14 @@ CheckRecord(n, pre, m, rec, entered, src) ==
     /\ Diff(n, "log.methods", SelectSeq(m.log, LAMBDA r : r[1] = "m"), SelectSeq(rec.log, LAMBDA r : r[1] = "m"))
     /\ Diff(n, "log.requests", SelectSeq(m.log, LAMBDA r : r[1] \in {"t", "cp"}), SelectSeq(rec.log, LAMBDA r : r[1] \in {"t", "cp"}))
     /\ Diff(n, "log.statuses", SelectSeq(m.log, LAMBDA r : r[1] \in {"ts", "ps"}), SelectSeq(rec.log, LAMBDA r : r[1] \in {"ts", "ps"}))
-    /\ Diff(n, "log.resolutions", SelectSeq(m.log, LAMBDA r : r[1] \in {"sel", "ut", "rn"}), SelectSeq(rec.log, LAMBDA r : r[1] \in {"sel", "ut", "rn"}))
-    /\ Diff(n, "log.order", m.log, rec.log)
+    /\ LET re == SelectSeq(m.log, LAMBDA r : r[1] \in {"sel", "ut", "rn"})
+           ro == SelectSeq(rec.log, LAMBDA r : r[1] \in {"sel", "ut", "rn"})
+           Key(r) == <<r[1], r[2], r[3]>>
+       IN /\ Diff(n, "log.resolutions", Map(re, Key), Map(ro, Key))
+          \* the same resolutions reported, with another utility / generator output: the value computed is C12's matter
+          /\ Map(re, Key) = Map(ro, Key) => Diff(n, "log.utilities", re, ro)
+    /\ Diff(n, "log.order", Map(m.log, LAMBDA r : IF r[1] \in {"ut", "rn"} THEN <<r[1], r[2], r[3]>> ELSE r),
+                             Map(rec.log, LAMBDA r : IF r[1] \in {"ut", "rn"} THEN <<r[1], r[2], r[3]>> ELSE r))
     /\ IF rec.a[1] = "save" THEN Diff(n, "buf", Encode(m), rec.buf) ELSE TRUE
     /\ IF rec.a[1] \in {"replay", "replayenter"} THEN Diff(n, "ret", IF m.ok THEN 1 ELSE 0, rec.ret) ELSE TRUE
     /\ Diff(n, "badThis", <<>>, rec.badThis)
